@@ -738,6 +738,17 @@ def r05_1(ctx: Ctx) -> None:
                           and stores["pageby_header_info"].path == e[6].path]
                 bvals = [x for x in parts(stores.get("group_boundaries")) if isinstance(x, CallSym) and x.meth == "_detect_group_boundaries"]
                 bcalls = [e for e in eff if e[0] == "call" and e[1] == "_detect_group_boundaries" and any(e[6].path == x.path for x in bvals)]
+                hv = stores.get("pageby_header_info")
+                if hv is not None and not hcalls:
+                    # heading info is attached on this path, but it is not a _get_group_headers result computed in this
+                    # iteration: a value carried over from an earlier page describes that page's first row, not this one's
+                    if isinstance(hv, Carried) or any(isinstance(x, Carried) for x in parts(hv)):
+                        seen_h += 1
+                        ctx.violation("R05.1", short, "heading info carried over from an earlier page", fi.where(),
+                                      f"{short}: on a path that appends a page, pageby_header_info is `{path_of(hv)[:80]}`, a value kept from an earlier "
+                                      "iteration: a group that starts mid-page and continues is headed by the previous page's (stale) group values")
+                    elif not (isinstance(hv, (CallSym,)) and hv.meth == "_get_group_headers") and path_of(hv) not in ("None",):
+                        ctx.gap("R05.1", f"{short}: pageby_header_info is assigned `{path_of(hv)[:80]}`, not recognisably the group headers of the page's first row")
                 if (hcalls or bcalls) and span is None:
                     ctx.gap("R05.1", f"{short}: the rows of a page (PageContext data=...) are not recognisable as a slice of the table")
                     continue
